@@ -810,10 +810,21 @@ pub(crate) fn run(args: &Args) -> i32 {
             }
         }
     }
+    // quick: the standard alphabet without read-only listings and a few redundant targets
+    // (they stay in the thorough full product)
+    let quick_skip = ["db-user-list", "db-list", "audit", "optimize", "admin-db-list", "admin-user-list", "admin-db-add"];
+    let quick_skip_labels = ["exec_mut:usr1/db9", "delete:usr2/db2", "db-user-add-admin:usr2/db2:usr1", "add:usr1/db1"];
+    let quick_invalid = ["exec_mut:usr1/db1", "delete:usr1/db1", "logout", "admin-db-delete:usr1/db1"];
+    let core: Vec<Step> = standard
+        .iter()
+        .filter(|s| !quick_skip.contains(&s.op.kind().as_str()) && !quick_skip_labels.contains(&s.op.label().as_str()))
+        .filter(|s| ["admin", "usr1", "usr2"].contains(&s.caller) || quick_invalid.contains(&s.op.label().as_str()))
+        .cloned()
+        .collect();
     let reduced: Vec<Step> = reduced_alphabet().iter().map(|(c, l)| step_of(c, l, &all_ops)).collect();
     // (alphabet, depth) per tier
     let plans: Vec<(&str, &Vec<Step>, usize)> = match args.tier {
-        Tier::Quick => vec![("standard", &standard, 2)],
+        Tier::Quick => vec![("core", &core, 2)],
         Tier::Thorough => vec![("full-product", &full, 2), ("reduced", &reduced, 3)],
     };
 
@@ -828,7 +839,8 @@ pub(crate) fn run(args: &Args) -> i32 {
     // status and world on a world reset in place and on a freshly started server
     {
         let fresh: Vec<std::sync::Mutex<Lab>> = (0..w).map(|_| std::sync::Mutex::new(Lab::new("c24f", true, &pool))).collect();
-        let items: Vec<(usize, &Step)> = bases.iter().enumerate().flat_map(|(bi, _)| standard.iter().map(move |s| (bi, s))).collect();
+        let check_alphabet: &Vec<Step> = if args.tier == Tier::Quick { &core } else { &standard };
+        let items: Vec<(usize, &Step)> = bases.iter().enumerate().flat_map(|(bi, _)| check_alphabet.iter().map(move |s| (bi, s))).collect();
         let mismatches = AtomicU64::new(0);
         engine::par_for(items.len(), args.seed, |wi, i| {
             let (bi, step) = items[i];
